@@ -1,6 +1,7 @@
 """C13 Both stores behave as isolated per-agent, per-item value/map storage."""
+import re
 from mirlib import AnchorMissing, describe_call, describe_operand, describe_place, describe_rvalue, dom_guards, guards, decision_paths, _suffix_match
-from rules.common import id_allocation_rule, named_argument_rule, aggregates, callers_by_name, owner_def, where
+from rules.common import in_execution_order, id_allocation_rule, named_argument_rule, aggregates, callers_by_name, owner_def, where
 
 META = {
     "explanation": (
@@ -102,7 +103,7 @@ def run(ctx):
             raise AnchorMissing("StoreKey::MAP_KEY_PREFIX_SIZE not found")
         # bytes written before the key, Map{key: Some} path
         seq = []
-        for c in wi.calls:
+        for c in in_execution_order(wi, [c for c in wi.calls if c.name == "write_all" and any(l == "Map" for d, l, _ in dom_guards(wi, c.block) if d == "disc(self)")]) + [c for c in wi.calls if c.name == "write_all" and not any(l == "Map" for d, l, _ in dom_guards(wi, c.block) if d == "disc(self)")]:
             if c.name == "write_all":
                 g = dom_guards(wi, c.block)
                 v = [l for d, l, _ in g if d == "disc(self)"]
@@ -117,10 +118,10 @@ def run(ctx):
                 "order: [MAP_TAG] id [KEY] len key", "Map key parts: %s" % descs)
         pc = ctx.saw(rs.fn(name="consume_next", self_adt="plane::PrefixStrippedRangeConsumer"))
         idx = [describe_call(pc, c) for c in pc.calls if c.via_name == "index"]
-        r.check(any("18" in d or "MAP_KEY_PREFIX_SIZE" in d for d in idx) and any("Lt(len(" in d and l == "false" for d, l, _ in [g for c in pc.calls if c.via_name == "index" for g in dom_guards(pc, c.block)]), "PrefixStrippedRangeConsumer/strip=MAP_KEY_PREFIX_SIZE", where(pc),
+        r.check(any("18" in d or "MAP_KEY_PREFIX_SIZE" in d for d in idx) and any((("Lt(len(" in d and l == "false") or ("Ge(len(" in d and l == "true")) and ("18" in d or "MAP_KEY_PREFIX_SIZE" in d) for d, l, _ in [g for c in pc.calls if c.via_name == "index" for g in dom_guards(pc, c.block)]), "PrefixStrippedRangeConsumer/strip=MAP_KEY_PREFIX_SIZE", where(pc),
                 "the consumer strips exactly MAP_KEY_PREFIX_SIZE bytes and rejects shorter keys", "the consumer strips %s" % idx)
         ub = ctx.saw(rs.fn(name="write_map_ubound", self_adt="server::StoreKey"))
-        us = [describe_operand(ub, c.args[1])[:40] for c in ub.calls if c.name == "write_all"]
+        us = [describe_operand(ub, c.args[1])[:40] for c in in_execution_order(ub, [c for c in ub.calls if c.name == "write_all"])]
         r.check(len(us) == 3 and "encode_fixed_light(lane_id" in us[1], "write_map_ubound/layout", where(ub), "upper bound = [MAP_TAG] id [UBOUND]", "upper bound parts: %s" % us)
         r.check(consts["KEY"] < consts["UBOUND"] and consts["VAL_TAG"] != consts["MAP_TAG"], "KEY<UBOUND", "-", "KEY (%s) < UBOUND (%s): every key of the lane sorts below the range bound" % (consts["KEY"], consts["UBOUND"]),
                 "KEY (%s) is not below UBOUND (%s): clear_map leaves entries behind" % (consts["KEY"], consts["UBOUND"]))
@@ -139,6 +140,15 @@ def run(ctx):
                 v = [l for d, l, _ in dom_guards(ek, c.block) if d == "disc(key)"]
                 d = describe_operand(ek, c.args[1])
                 tb[v[0] if v else "?"] = d
+        # (the table may sit in a helper: the constants built under the match on the key say the same)
+        for i, j, p_, rv, line in ek.assigns():
+            d_ = describe_rvalue(ek, rv)
+            if re.match(r"^KeyspaceName::(Map|Value|Lane)\(\)$", d_):
+                for dd, l, _ in dom_guards(ek, i):
+                    if dd in ("disc(key)", "disc((*key))"):
+                        for k_ in l.split("|"):
+                            if "KeyspaceName::" not in tb.get(k_, ""):
+                                tb[k_] = d_
         r.check("KeyspaceName::Map" in tb.get("Map", "") and "KeyspaceName::Value" in tb.get("Value", ""), "exec_keyspace/routing", where(ek), "Map -> KeyspaceName::Map, Value -> KeyspaceName::Value", "routing table: %s" % tb)
         rc = ctx.saw(rs.fn(name="ranged_snapshot_consumer", self_adt="plane::SwimPlaneStore"))
         ns = {}
